@@ -26,6 +26,10 @@ use std::fs;
 use std::path::Path;
 use verif_harness::*;
 
+/// the loader's own `print_js` (crates/graphql-loader is a bin crate; this file of it uses no `crate::` path)
+#[path = "/repo/crates/graphql-loader/src/js_printer.rs"]
+mod loader_js_printer;
+
 // ------------------------------------------------------------------ recording writer
 
 #[derive(Clone, PartialEq, Eq, Debug)]
@@ -134,6 +138,8 @@ impl<'a> OperationResolver<'static> for Resolver<'a> {
 /// loader would print (everything parsed with file index 0).
 struct Project {
     descr: Value,
+    via_resolver: bool,
+    sources: Vec<(String, &'static str)>, // (file name under src/, text)
     doc: OperationDocument<'static>,
     doc_l: OperationDocument<'static>,
 }
@@ -252,7 +258,8 @@ fn gen_project(rng: &mut Rng, id: usize) -> Project {
         "definition_order": if via_resolver { json!(null) } else { json!(order) },
         "document_position_from_file": doc_pos_from,
     });
-    Project { descr, doc, doc_l }
+    let sources = (0..n_files).map(|fi| (if fi == 0 { "main.graphql".to_string() } else { format!("f{}.graphql", fi) }, srcs[fi])).collect();
+    Project { descr, via_resolver, sources, doc, doc_l }
 }
 
 fn coq_doc(d: &OperationDocument) -> String {
@@ -409,11 +416,9 @@ fn text_dts(cfg: &Config, schema: &graphql_type_system::Schema<std::borrow::Cow<
     print_types_for_operation_document(OperationTypePrinterOptions::from_config(cfg), schema, doc, &mut w);
     w.into_buffers().buffer
 }
-/// crates/graphql-loader/src/js_printer.rs::print_js (the loader is a bin crate; these are its five lines)
+/// what the loader's emit_js returns for the resolved document
 fn text_js(cfg: &Config, doc: &OperationDocument) -> String {
-    let mut w = SourceWriter::new();
-    print_js_for_operation_document(OperationJSPrinterOptions::from_config(cfg), doc, &mut w);
-    w.into_buffers().buffer
+    loader_js_printer::print_js(doc, cfg)
 }
 
 /// export statements read off the generated TEXT: lines `export const NAME<sep>` and `export { NAME as default };`
@@ -430,6 +435,31 @@ fn text_exports(text: &str, sep: &str) -> (Vec<String>, Vec<String>) {
 }
 fn coq_text_exports(t: &(Vec<String>, Vec<String>)) -> String {
     format!("({}, {})", coq_list(&t.0, |s| coq_str(s)), coq_list(&t.1, |s| coq_str(s)))
+}
+
+// ------------------------------------------------------------------ end to end through the real CLI binary
+
+/// Writes the project and the configuration text to a directory, runs `nitrogql-cli generate` and returns the
+/// text of the declaration file it wrote for main.graphql (None: the CLI refused the project, e.g. `check` failed).
+fn cli_generate(cli: &str, dir: &Path, pr: &Project, cfg_text: &str, format: &str, mode: Option<u8>) -> Option<String> {
+    let _ = fs::remove_dir_all(dir);
+    fs::create_dir_all(dir.join("schema")).ok()?;
+    fs::create_dir_all(dir.join("src")).ok()?;
+    fs::write(dir.join("schema/s.graphql"), SCHEMA).ok()?;
+    for (name, text) in &pr.sources { fs::write(dir.join("src").join(name), text).ok()?; }
+    let cfg_name = if format == "yaml" { "graphql.config.yaml" } else { "graphql.config.json" };
+    fs::write(dir.join(cfg_name), cfg_text).ok()?;
+    let out = std::process::Command::new(cli)
+        .current_dir(dir)
+        .args(["--config-file", cfg_name, "--schema", "./schema/*.graphql", "--operation", "./src/*.graphql",
+               "--schema-output", "./src/generated/schema.d.ts", "generate"])
+        .output().ok()?;
+    let res = if out.status.success() {
+        let ext = match mode { Some(1) => "graphql.d.ts", Some(2) => "graphql.ts", _ => "d.graphql.ts" };
+        fs::read_to_string(dir.join("src").join(format!("main.{}", ext))).ok()
+    } else { None };
+    let _ = fs::remove_dir_all(dir);
+    res
 }
 
 // ------------------------------------------------------------------ bodies (the unmodelled sub-sequences)
@@ -527,6 +557,9 @@ fn main() {
     let args = parse_args();
     let mut rng = Rng::new(args.seed);
     let thorough = args.tier == "thorough";
+    let cli: Option<String> = args.extra.iter().position(|a| a == "--cli").and_then(|i| args.extra.get(i + 1)).cloned();
+    let mut e2e_budget: usize = if cli.is_none() { 0 } else if thorough { 1500 } else { 160 };
+    let e2e_dir = args.out.join("e2e-scratch");
 
     let schema_doc = {
         let doc = parse_type_system_document(SCHEMA).expect("schema parses");
@@ -631,9 +664,19 @@ fn main() {
             let text_safe = sfx_all.iter().all(|s| is_text_safe(s));
             let te_dts = text_exports(&tdts, ": ");
             let te_js = text_exports(&tjs_l, " = ");
-            let term = format!("Case {p}_doc {p}_docL {p}_B {p}_ids {} {} {} {} {} {} {}",
+            // a share of the cases also goes through the real CLI binary (cli/src/generate.rs, load_config, file store)
+            let mut te_cli: Option<(Vec<String>, Vec<String>)> = None;
+            if pr.via_resolver && e2e_budget > 0 && rng.chance(1, 3) {
+                e2e_budget -= 1;
+                let mode = match &cfg { Some(GenT { mode: Some(m), .. }) => Some(*m), _ => None };
+                match cli_generate(cli.as_ref().unwrap(), &e2e_dir, &pr, &text, format, mode) {
+                    Some(t) => { bump("e2e_cli_runs_ok", &mut dist); te_cli = Some(text_exports(&t, ": ")); }
+                    None => { bump("e2e_cli_rejected_project(check)", &mut dist); }
+                }
+            }
+            let term = format!("Case {p}_doc {p}_docL {p}_B {p}_ids {} {} {} {} {} {} {} {}",
                 coq_cfg(&cfg), coq_ops(&dts, &named_seqs, &named_strs), coq_ops(&js, &named_seqs, &named_strs),
-                coq_ops(&js_l, &named_seqs, &named_strs), coq_bool(text_safe), coq_text_exports(&te_dts), coq_text_exports(&te_js));
+                coq_ops(&js_l, &named_seqs, &named_strs), coq_bool(text_safe), coq_text_exports(&te_dts), coq_text_exports(&te_js), coq_opt(&te_cli, coq_text_exports));
             let mode_s = match &cfg { Some(GenT { mode: Some(m), .. }) => MODES[*m as usize], _ => "(absent)" };
             bump(&format!("mode={}", mode_s), &mut dist);
             bump(&format!("format={}", format), &mut dist);
@@ -649,7 +692,8 @@ fn main() {
                 descr: json!({"project": pr.descr, "config_text": text, "config_format": format,
                     "dts_text": tdts, "loader_js_text_head": tjs_l.chars().take(400).collect::<String>(),
                     "dts_exports_from_text": {"named": te_dts.0, "default": te_dts.1},
-                    "js_exports_from_text": {"named": te_js.0, "default": te_js.1}}),
+                    "js_exports_from_text": {"named": te_js.0, "default": te_js.1},
+                    "cli_dts_exports_from_text": te_cli.as_ref().map(|t| json!({"named": t.0, "default": t.1}))}),
                 project: pid,
             });
         }
